@@ -72,7 +72,7 @@ func (g c09Grid) args() string {
 // lexicographically smallest corner comes first (orientation kept), triangles sorted
 func c09CanonTris(m modeling.Mesh) string {
 	if m.PrimitiveCount() == 0 {
-		return "empty-or-panic"
+		return "empty"
 	}
 	idx := m.Indices()
 	pos := m.Float3Attribute(modeling.PositionAttribute)
@@ -133,16 +133,12 @@ func c09CanonTris(m modeling.Mesh) string {
 	return b.String()
 }
 
-// runs f; a panic whose message is the "mesh without the attribute" one (March on a canvas that produced
-// no triangle at all — the non-parallel path has no empty-result guard) becomes "empty-or-panic"
+// runs f; a panic is the answer "panic" (since fix 0adf5e5 March returns the empty mesh when the canvas yields no
+// triangle; before, the sequential path panicked in WeldByFloat3Attribute — a regression of that guard shows here)
 func c09GuardMarch(f func() string) (s string) {
 	defer func() {
 		if r := recover(); r != nil {
-			if strings.Contains(fmt.Sprint(r), "without the attribute") {
-				s = "empty-or-panic"
-			} else {
-				s = "panic"
-			}
+			s = "panic"
 		}
 	}()
 	return f()
@@ -279,12 +275,12 @@ func (c *Ctx) c09GridCase(boxes int, withLong bool, exact bool) {
 		gmesh = canvas.March(0)
 		return c09CanonTris(gmesh)
 	})
-	if ans == "empty-or-panic" {
+	if ans == "empty" {
 		c.Note("grid.empty-mesh")
 	}
 	c.Note(fmt.Sprintf("grid.boxes=%d", len(gs)))
 	c.Emit("c09.march.grid", args, ans)
-	if exact && ans != "panic" && ans != "empty-or-panic" {
+	if exact && ans != "panic" && ans != "empty" {
 		c.Note("grid.exact-cutoff-canvas")
 		c.Emit("c09.holds.balanced", c09MeshTokens(gmesh, true, false), "true")
 	}
@@ -757,7 +753,70 @@ func c09Bucket(n int) int {
 	return b
 }
 
+// empty-surface classes: the below-threshold region is empty (the premise of the property holds vacuously); March must
+// return the empty mesh (not panic), on which closed / balanced hold trivially.  The all-BELOW case (every sample inside)
+// is excluded: the inside region then reaches the boundary of the declared domain, which violates the premise.
+func (c *Ctx) c09EmptyCases() {
+	type ec struct {
+		name   string
+		cpu    float64
+		cutoff float64
+		field  marching.Field
+	}
+	constField := func(v float64, ctr, size vector3.Float64) marching.Field {
+		return marching.Field{
+			Domain: geometry.NewAABB(ctr, size),
+			Float1Functions: map[string]sample.Vec3ToFloat{
+				modeling.PositionAttribute: func(vector3.Float64) float64 { return v },
+			},
+		}
+	}
+	cases := []ec{
+		{"constant field 1 above cutoff 0, one block", 2, 0, constField(1, vector3.New(50.25, 20.25, 30.25), vector3.New(3., 3., 3.))},
+		{"constant field 1 above cutoff 0, across seams (negative)", 5, 0, constField(1, vector3.New(0., 0., 0.), vector3.New(2., 2., 2.))},
+		{"constant field equal to the cutoff (0 is not below 0)", 1, 0, constField(0, vector3.New(10., 10., 10.), vector3.New(4., 4., 4.))},
+		{"sphere entirely above: cutoff below the field's minimum", 5, -3, marching.Sphere(vector3.New(5., 5., 5.), 1, 1)},
+		{"box entirely above: cutoff below the field's minimum, across a seam", 4, -5, marching.Box(vector3.New(25., 3., 3.), vector3.New(2., 2., 2.), 1)},
+		{"capsule entirely above at a negative cutoff", 10, -1, marching.Line(vector3.New(2., 2., 2.), vector3.New(3., 2., 2.), 0.4, 1)},
+	}
+	for _, e := range cases {
+		c.Note("empty.case")
+		var mesh modeling.Mesh
+		status := Guard(func() string {
+			canvas := marching.NewMarchingCanvas(e.cpu)
+			canvas.AddField(e.field)
+			mesh = canvas.March(e.cutoff)
+			return "ok"
+		})
+		if status != "ok" {
+			c.Emit("c09.holds.empty_surface", "0 0", status)
+			continue
+		}
+		// the driver answers true iff the mesh has no triangle; closed and balanced are evaluated on it as well
+		c.Emit("c09.holds.empty_surface", c09MeshTokens(mesh, true, false), "true")
+		c.Emit("c09.holds.closed", c09MeshTokens(mesh, true, false), "true")
+		c.Emit("c09.holds.balanced", c09MeshTokens(mesh, true, false), "true")
+	}
+	// grid stream: tagged boxes with every sample at or above the cutoff; model answer = empty
+	for k := 0; k < 3; k++ {
+		S := []int{0, 100, -100}[k]
+		g := c09Grid{ox: S - 2, oy: 20 + k, oz: S - 1, nx: 4, ny: 3, nz: 4}
+		g.vals = make([]int, g.nx*g.ny*g.nz)
+		for i := range g.vals {
+			g.vals[i] = []int{1, 3, 0}[(i+k)%3]
+		}
+		ans := c09GuardMarch(func() string {
+			canvas := marching.NewMarchingCanvas(1)
+			canvas.AddField(g.field())
+			return c09CanonTris(canvas.March(0))
+		})
+		c.Note("empty.grid")
+		c.Emit("c09.march.grid", "1 "+g.args(), ans)
+	}
+}
+
 func runC09(c *Ctx) {
+	c.c09EmptyCases()
 	// lattice-aligned / exact-cutoff classes: the fixed catalogue in both tiers, then N random members
 	for _, a := range c09AlignedCatalogue() {
 		c.c09RunAligned(a)
